@@ -12,7 +12,7 @@ ASSUMPTIONS = [
     "post-hook faults are outside this property (C01/C16 judge them)",
 ]
 GATES = [
-    "mon.C03.deep_chain",
+    "mon.C03.deep_chain", "mon.C03.wide_node",
     "mon.C03.unchanged", "C03.refusal.TreeError", "C03.refusal.LoopError", "C03.refusal.TypeError",
     "C03.unchanged_ok.veto.pre_detach", "C03.unchanged_ok.veto.pre_attach", "C03.unchanged_ok.veto.pre_detach_children",
     "C03.unchanged_ok.veto.pre_attach_children", "C03.veto.setparent", "C03.veto.setchildren", "C03.veto.delchildren",
@@ -28,10 +28,18 @@ def run(ctx):
     from . import deepchain
 
     deepchain.run(ctx, "C03")
+    from . import widenode
+
+    widenode.run(ctx, "C03")
     E.Engine(ctx, MONITORS, faults=True).run()
 
 
 def replay(ctx, wit):
+    if wit.get("case", {}).get("wide_node"):
+        from . import widenode
+
+        ctx.case(("replay",))
+        return widenode.run(ctx, "C03")
     if wit.get("case", {}).get("deep_chain"):
         from . import deepchain
 
